@@ -42,7 +42,7 @@ def gen_gated(rng: random.Random):
         chosen = [min(sel, n_br - 1)]
     spec = {"family": "gated", "kind": kind, "branches": branches, "chosen": chosen, "decision_kind": decision_kind, "use_end": use_end,
             "default_open": rng.random() < 0.5, "branch_reads_src": rng.random() < 0.5, "second_gate": rng.random() < 0.3,
-            "fallback": (rng.randrange(n_br) if kind == "route" and rng.random() < 0.3 else None), "x": rng.choice([0, 1, 5]),
+            "fallback": (rng.randrange(n_br) if kind == "route" and rng.random() < 0.3 else None), "x": rng.choice([0, 1, 5]), "explicit_edges": rng.random() < 0.35,
             "order_seed": rng.randrange(1000)}
     return spec
 
@@ -79,6 +79,15 @@ def build_gated(spec, log=None):
         nodes.append(gate_node("gate2", "route", ["x"], log, lambda a: br[1], targets=[br[0], br[1]], default_open=spec["default_open"]))
     rng = random.Random(spec["order_seed"])
     rng.shuffle(nodes)
+    if spec.get("explicit_edges"):
+        # explicit-edges mode: every data edge is declared, plus the gate -> target pairs as ordering-only edges
+        edges = []
+        for b in br:
+            edges.append(("src", b, "s") if spec["branch_reads_src"] else None)
+            edges.append(("gate", b))
+            if spec["second_gate"] and b in (br[0], br[1]):
+                edges.append(("gate2", b))
+        return Graph(nodes, edges=[e for e in edges if e is not None]), log
     return Graph(nodes), log
 
 
